@@ -157,16 +157,6 @@ Section TreeInd.
     end.
 End TreeInd.
 
-(* std::map has no duplicate keys, at any depth *)
-Fixpoint wfT (t : tree) : Prop :=
-  match t with
-  | Leaf _ => True
-  | Obj kvs =>
-      NoDup (keys kvs) /\
-      (fix all (l : list (key * tree)) : Prop :=
-         match l with [] => True | kv :: l' => wfT (snd kv) /\ all l' end) kvs
-  end.
-
 Lemma wfT_obj kvs : wfT (Obj kvs) <-> NoDup (keys kvs) /\ Forall (fun kv => wfT (snd kv)) kvs.
 Proof.
   cbn [wfT]. split; intros [H1 H2]; split; auto.
@@ -204,8 +194,6 @@ Proof.
     + cbn in H1. apply andb_true_iff in H1. tauto.
     + apply andb_true_iff in H2. tauto.
 Qed.
-
-Definition wfj (j : json) : Prop := match j with None => True | Some t => wfT t end.
 
 Lemma wfT_child k c kvs : wfT (Obj kvs) -> alookup k kvs = Some c -> wfT c.
 Proof.
